@@ -50,8 +50,10 @@ def oracle_fns(t):
     return s
 
 
-def emit(modname, cfgid, shape, with_peq=False, sp=None, pre='', t_override=None):
+def emit(modname, cfgid, shape, with_peq=False, sp=None, pre='', t_override=None, xf=None):
     t = t_override or build(shape, with_peq)
+    if xf:
+        xf(t)
     body = pre + render_type(t, sp) + any_fn(t) + variant_index_fn(t) + oracle_fns(t)
     live = any(f.code != 'i' for v in t.variants for f in v.fields)
     covers = ['same key']
